@@ -160,10 +160,27 @@ CHECKS = {
              "recovery step under test). Non-terminating tests are not generated (`garden test` has no budget).",
         design_ref="DESIGN.md section 3, C26",
     ),
+    "C28": dict(
+        engine="worldsim",
+        category="exploration",
+        technique="deterministic simulation of client behaviour and transport: seeded LSP message histories delivered to the "
+                  "real server process over framed pipes whole / chunked / cut by EOF at an arbitrary byte / with malformed "
+                  "frames / to a slow consumer, plus a reference run of `garden check --json`",
+        text="Oracle over the framed output: for every well-formed request delivered completely (before EOF, before any "
+             "malformed frame) exactly one response with its id, in request order, with exactly one of result/error; none "
+             "for notifications; one publishDiagnostics per did* notification that carries the required fields; nothing "
+             "else; the process never dies by signal or panic and exits with the protocol's status (0 after shutdown+exit "
+             "or EOF, 1 after exit alone); the last diagnostics of up to two open documents equal `garden check --json` on "
+             "the same text at the same path (ranges converted from byte columns to UTF-16 independently); chunked and "
+             "slow-consumer deliveries give the same byte stream as whole delivery.",
+        note="No in-process fast path: every history is a real process. After a malformed frame only liveness and exit "
+             "status are required. Documents on which the front end reports a position outside its own line are compared "
+             "on start/severity/message only (that inconsistency is C23's subject).",
+        design_ref="DESIGN.md section 3, C28",
+    ),
 }
 
-PENDING = {p: "claimed in DESIGN.md; its check is not built yet, so nothing is claimed for it in this manifest"
-           for p in ["C28"]}
+PENDING = {}
 
 NOT_APPLICABLE = {
     "C01": "lex/parse/check never crash: a pure function of one source string; no schedule, clock, fault or history to simulate (fuzzing territory)",
